@@ -279,7 +279,7 @@ class ConcCtx:
       self.drawn[name] = v
       return v
     # random dyadic values: exact in float64, ties reasonably likely
-    v = self.rng.randint(-8 * int(self.scale), 8 * int(self.scale)) / 4.0
+    v = self.rng.randint(-16, 16) / 8.0 * self.scale
     self.drawn[name] = v
     return np.float64(v)
 
